@@ -1167,6 +1167,12 @@ func (w *Wallet) MintSwap(amount uint64, from, to string) (uint64, error) {
 
 // swapProofs will swap the proofs in the from mint to specified mint
 func (w *Wallet) swapProofs(proofs cashu.Proofs, from, to *walletMint) (uint64, error) {
+	// keep the proofs as pending while the swap is in progress. If anything fails before
+	// they are spent, they are not lost and can be reclaimed from the pending proofs
+	if err := w.db.AddPendingProofs(proofs); err != nil {
+		return 0, fmt.Errorf("could not save proofs to pending: %v", err)
+	}
+
 	var mintResponse *nut04.PostMintQuoteBolt11Response
 	var meltQuoteResponse *nut05.PostMeltQuoteBolt11Response
 	invoicePct := 0.99
@@ -1211,6 +1217,19 @@ func (w *Wallet) swapProofs(proofs cashu.Proofs, from, to *walletMint) (uint64, 
 	// if melt request was successful and invoice got paid,
 	// make mint request to get valid proofs
 	if meltBolt11Response.State == nut05.Paid {
+		// proofs were spent so remove them from pending
+		Ys := make([]string, len(proofs))
+		for i, proof := range proofs {
+			Y, err := crypto.HashToCurve([]byte(proof.Secret))
+			if err != nil {
+				return 0, err
+			}
+			Ys[i] = hex.EncodeToString(Y.SerializeCompressed())
+		}
+		if err := w.db.DeletePendingProofs(Ys); err != nil {
+			return 0, fmt.Errorf("error removing pending proofs: %v", err)
+		}
+
 		mintedAmount, err := w.MintTokens(mintResponse.Quote)
 		if err != nil {
 			return 0, fmt.Errorf("error minting tokens: %v", err)
